@@ -47,7 +47,8 @@ CHECKS.update({
                 technique="contract-based deductive verification (pyvc, z3) of the index discipline; runtime contracts as bounded stand-in for the numeric clauses",
                 note=OTHER_NOTE + " Assumed contract: _push_cano moves the centre by one site and keeps the dense object."),
     "C05": dict(cat="other", ref="DESIGN §8 C05, App. A.2",
-                text="Engine S kernel-stub mode: which entry of a per-bond / per-node limit applies to the bond being cut is decided for all tensor values by probes (limit 1 everywhere "
+                text="Tree compression: compress_recursion (tn/tree.py) as a whole function on the shape abstraction with the recursive call by its own contract and a ghost subtree relation under the tree axioms: every bond below the start node obeys its own limit and nothing else changes, for every tree (62 obligations; pyvc: enumerate loops, recursion). "
+                     "Engine S kernel-stub mode: which entry of a per-bond / per-node limit applies to the bond being cut is decided for all tensor values by probes (limit 1 everywhere "
                      "except on the cut bond; limits equal to the current bond dimensions) through the real chain two-site update, tree compress and tree update_2site. "
                      "MatrixProduct.compress as a whole (re-extracted from the current source on the shape abstraction, _update_ms and compute_m_trunc by contract, "
                      "iter_idx_list / _switch_direction inlined) proved for every chain length and both directions: every interior bond is cut once and obeys its own limit "
